@@ -14,8 +14,14 @@ EXTENDS Integers, Sequences, TLC, Json, Spectral
 
 Trace == ndJsonDeserialize("trace.ndjson")
 VARIABLE l
-\* floating-point accumulation allowance relative to the input norm (statement: "to within floating-point accumulation error")
-Tol(norm) == RMul("1e-9", norm)
+\* floating-point accumulation allowance (statement: "to within floating-point accumulation error (relative to the
+\* input norm)"): a radix-2 FFT with accurate twiddles errs by O(eps log2 N) ||x||; measured on the pinned code:
+\* 1.4 eps log2 N for impulses and round trips.  A tone is itself built from rounded cos/sin values, which adds
+\* O(eps sqrt N) ||x|| (measured 11 eps sqrt N at 2^20).  Allowances: 16 eps log2 N resp. 64 eps sqrt N.
+Eps == "2.220446049250313e-16"
+LogN(N) == LastPow2(N).p
+TolLog(N, norm) == RMul(RMul(RMul(16, Eps), LogN(N)), norm)
+TolTone(N) == RMul(RMul(RMul(64, Eps), RSqrt(N)), RSqrt(N))         \* relative allowance 64 eps sqrt N times the norm sqrt N
 
 NewOK(e) == LET r == LastPow2(e.N) IN e.panicked = FALSE /\ e.err = r.err /\ (~r.err => e.n = r.n)
 SampleOK(e, s) ==
@@ -23,13 +29,13 @@ SampleOK(e, s) ==
    /\ kk \in 0..(e.N - 1) /\ RIsNum(s[2]) /\ RIsNum(s[3])
    /\ IF e.kind = "impulse"
         THEN LET r == RMulMod(e.j, kk, e.N) IN
-             RClose(s[2], RCosTurn(r, e.N), Tol(1)) /\ RClose(s[3], RNeg(RSinTurn(r, e.N)), Tol(1))
-        ELSE RClose(s[2], IF kk = e.j THEN e.N ELSE 0, Tol(RSqrt(e.N))) /\ RClose(s[3], 0, Tol(RSqrt(e.N)))
+             RClose(s[2], RCosTurn(r, e.N), TolLog(e.N, 1)) /\ RClose(s[3], RNeg(RSinTurn(r, e.N)), TolLog(e.N, 1))
+        ELSE RClose(s[2], IF kk = e.j THEN e.N ELSE 0, TolTone(e.N)) /\ RClose(s[3], 0, TolTone(e.N))
 FamilyOK(e) == /\ e.panicked = FALSE /\ e.err = FALSE /\ e.j \in 0..(e.N - 1)
                /\ Len(e.samples) >= 1
                /\ \A i \in 1..Len(e.samples) : SampleOK(e, e.samples[i])
-               /\ RIsNum(e.maxerr) /\ RLeq(e.maxerr, Tol(IF e.kind = "impulse" THEN 1 ELSE RSqrt(e.N)))
-InvOK(e) == e.panicked = FALSE /\ e.err = FALSE /\ RIsNum(e.maxdiff) /\ RIsNum(e.norm) /\ RLeq(e.maxdiff, Tol(e.norm))
+               /\ RIsNum(e.maxerr) /\ RLeq(e.maxerr, IF e.kind = "impulse" THEN TolLog(e.N, 1) ELSE TolTone(e.N))
+InvOK(e) == e.panicked = FALSE /\ e.err = FALSE /\ RIsNum(e.maxdiff) /\ RIsNum(e.norm) /\ RLeq(e.maxdiff, TolLog(e.N, e.norm))
 WrongLenOK(e) == e.len # LastPow2(e.N).n => (e.panicked = TRUE /\ e.returned = FALSE)
 
 Init == l = 1
